@@ -129,6 +129,13 @@ impl<C: Suite> Interp<C> {
                 self.put(&st["out"], Obj::R1p(n))?;
                 Ok(json!({"ok": true}))
             }
+            "graft_proof" => {
+                let c = self.r1p(&st["commit_of"])?;
+                let p = self.r1p(&st["proof_of"])?;
+                let n = dkg::round1::Package::new(c.commitment().clone(), *p.proof_of_knowledge());
+                self.put(&st["out"], Obj::R1p(n))?;
+                Ok(json!({"ok": true}))
+            }
             "dkg2" => {
                 let sec = self.r1s(&st["sec"])?;
                 let r1 = self.slots(st.get("r1"), |s, h| s.r1p(h))?;
@@ -494,6 +501,23 @@ impl<C: Suite> Interp<C> {
                         Ok(y) => (json!({"ok": true, "same": y == x}), Some(Obj::Sk(y))),
                         Err(_) => (json!({"ok": false, "stage": "de"}), None),
                     },
+                    Obj::Sc(x) => {
+                        // a repair value (Delta / Sigma) in transit or at rest
+                        let b = F::<C>::serialize(&x);
+                        let r = if json_form {
+                            Delta::<C>::deserialize(b.as_ref())
+                                .ok()
+                                .and_then(|d| serde_json::to_string(&d).ok())
+                                .and_then(|s| serde_json::from_str::<Delta<C>>(&s).ok())
+                                .map(|d| d.serialize())
+                        } else {
+                            Sigma::<C>::deserialize(b.as_ref()).ok().map(|d| d.serialize())
+                        };
+                        match r.and_then(|bytes| Self::scalar_of_bytes(&bytes).ok()) {
+                            Some(y) => (json!({"ok": true, "same": y == x}), Some(Obj::Sc(y))),
+                            None => (json!({"ok": false, "stage": "de"}), None),
+                        }
+                    }
                     o => return se(format!("reload of {}", o.ty_name())),
                 };
                 if let Some(n) = n {
